@@ -98,6 +98,18 @@ Theorem datauri_table_plus_refuted :
 Proof. exact datauri_table_plus_refuted_proof. Qed.
 Print Assumptions datauri_table_plus_refuted.
 
+(* precisely: with DataURIEncodingTable everything but '+' comes back, '+' comes back as a space *)
+Theorem decode_encode_datauri_table :
+  forall b, Forall is_byte b ->
+    exists r, encode_url b Tables.datauri_encoding_table = Ok r /\ decode_url r = Ok (map plus_to_space b).
+Proof. exact decode_encode_datauri_table_proof. Qed.
+Print Assumptions decode_encode_datauri_table.
+
+(* DecodeURL never returns more bytes than it was given *)
+Theorem decode_not_longer : forall b r, decode_url b = Ok r -> len r <= len b.
+Proof. exact decode_not_longer_proof. Qed.
+Print Assumptions decode_not_longer.
+
 Theorem no_panic_url :
   forall b, Forall is_byte b ->
     (exists r, encode_url b Tables.url_encoding_table = Ok r) /\
@@ -138,6 +150,15 @@ Theorem datauri_roundtrip_std :
     data_uri b64_decode (data_scheme ++ (p ++ last) ++ 44 :: encode_ref Tables.url_encoding_table d) = Ok (DOk mt d).
 Proof. exact datauri_roundtrip_std_proof. Qed.
 Print Assumptions datauri_roundtrip_std.
+
+(* percent-encoding with the library's own DataURIEncodingTable instead: the payload comes back with
+   every '+' turned into a space and is otherwise exact (the precise extent of finding datauri-plus) *)
+Theorem datauri_percent_datauri_table :
+  forall b64dec p np last d, params p np -> plain last -> trim_ref last <> base64_bytes -> Forall is_byte d ->
+    data_uri b64dec (data_scheme ++ (p ++ last) ++ 44 :: encode_ref Tables.datauri_encoding_table d) =
+    Ok (DOk (mt_default (np ++ trim_ref last)) (map plus_to_space d)).
+Proof. exact datauri_percent_datauri_table_proof. Qed.
+Print Assumptions datauri_percent_datauri_table.
 
 (* DataURI never panics on arbitrary bytes (whatever the base64 decoder does), and it returns
    ErrBadDataURI exactly when the argument is not "data:" followed by something containing a comma;
